@@ -1,6 +1,210 @@
-(* Props/C13.v — property C13 (placeholder while the pipeline is brought up). *)
-From Eino Require Import Base.Util Model.Errors Proofs.Errors.
+(* Props/C13.v — property C13: node failures surface as identifiable, unwrappable errors naming
+   the failing node path through nested graphs; the step-limit sentinel and context cancellation
+   are matchable the same way; interrupts are not wrapped; panics in node bodies and tool calls
+   are errors of the run.  Statements only; proofs in Proofs/Errors.v, Proofs/ErrorsRun.v and
+   Proofs/ErrorsFwd.v.  Model: Model/Errors.v (error terms, errors.Is / errors.As, the wrappers of
+   compose/error.go, the run loop's error paths over a forest of nested graphs). *)
+From Eino Require Import Base.Util Model.Errors Proofs.Errors Proofs.ErrorsRun.
+Open Scope string_scope.
 
-Theorem chain_starts_with_error : forall b e, exists l, chain_gen b e = e :: l.
-Proof. exact chain_head. Qed.
-Print Assumptions chain_starts_with_error.
+(* ------------------------------------------------------------------ the path *)
+
+(* Every error a run may return, at every nesting depth d, for every graph of the forest, every
+   input and every completion order (es is the set of legal answers), is the origin r wrapped
+   along a real path p of nodes (sub-graph nodes through the forest, ending at a failing leaf or
+   at the sub-graph whose own loop failed: [reported]); the node path the caller reads off it —
+   in every paradigm — is p followed by whatever path the origin already carried (a node body
+   that ran a graph of its own); p exactly when it carried none. *)
+Theorem node_error_path : forall F stream d g items canc es e,
+  run_graph F stream d g items canc = GFail es -> In e es ->
+  exists p r, reported F stream g e p r /\ e = wrap_path p r /\
+              (is_interrupt_error r = false ->
+               forall par, np_of (top_error par e) = (p ++ np_of r)%list).
+Proof. exact node_error_path_lemma. Qed.
+Print Assumptions node_error_path.
+
+(* ... and conversely a task that ends with an error is not swallowed: the step fails and that
+   error, wrapped under the node's key, is among the legal answers (whatever the other tasks of
+   the step did). *)
+Theorem node_failure_reported : forall F stream rec all loop k st rest items n es' e',
+  In n st -> exec_node F stream rec items false n = NErr es' -> In e' es' ->
+  is_interrupt_task e' = false ->
+  any_fuel (map (fun n => (node_key n, exec_node F stream rec items false n)) st) = false ->
+  exists es, steps F stream rec all loop (S k) (st :: rest) items false = GFail es /\
+             In (wrap_node (node_key n) e') es.
+Proof. exact step_reports_failure. Qed.
+Print Assumptions node_failure_reported.
+
+(* non-vacuity: nesting depth 3, two parallel failures at the innermost level *)
+Definition ex_forest : forest :=
+  [ mkGraph false [[NLam "first" FI BOk]; [NSub "a" 1]] false 0;
+    mkGraph true  [[NSub "b" 2; NLam "side" FT BOk]] false 0;
+    mkGraph false [[NSub "c" 3]] false 0;
+    mkGraph false [[NLam "n" FS (BFail (Wrapf (Leaf 0))); NLam "m" FI (BFail (Custom 1 7))]] false 0 ].
+
+Example node_error_path_nonvacuous :
+  map (fun a => match a with AErr e => (np_of e, is_ (Leaf 0) e, as_custom 1 e) | _ => ([], false, None) end)
+      (answers ex_forest PStream false None)
+  = [ (["a"; "b"; "c"; "n"], true, None); (["a"; "b"; "c"; "m"], false, Some 7%N) ].
+Proof. vm_compute. reflexivity. Qed.
+
+(* ------------------------------------------------------------------ recovering the original error *)
+
+(* Through any stack of the framework's wrappers (node, stream-wrapper, concat, graph-run, %w
+   context) errors.Is for every sentinel / value that is not itself a framework wrapper,
+   errors.As for every custom type and the recovered-panic payload give exactly what they give
+   on the node's own error e; and e itself stays on the chain (errors.Is(runErr, e)). *)
+Theorem orig_recoverable : forall ws e,
+  (forall t, leaf_target t -> is_ t (apply_ws ws e) = is_ t e) /\
+  (forall ty, as_custom ty (apply_ws ws e) = as_custom ty e) /\
+  as_panic (apply_ws ws e) = as_panic e /\
+  (transparent e = false \/ (exists x, e = Wrapf x) -> is_ e (apply_ws ws e) = true).
+Proof. exact recoverable_lemma. Qed.
+Print Assumptions orig_recoverable.
+
+(* End to end: for what a run may return (any depth, any paradigm of the caller), when the origin
+   is the user's error u under wrappers — as it is for every failing lambda flavour and tool,
+   [failing_lambda_shape], [failing_tool_shape] — the caller recovers u. *)
+Theorem orig_recoverable_run : forall F stream g e p r ws u par,
+  reported F stream g e p r -> r = apply_ws ws u ->
+  (forall t, leaf_target t -> is_ t (top_error par e) = is_ t u) /\
+  (forall ty, as_custom ty (top_error par e) = as_custom ty u) /\
+  as_panic (top_error par e) = as_panic u /\
+  (transparent u = false \/ (exists x, u = Wrapf x) -> is_ u (top_error par e) = true).
+Proof. exact recoverable_run_lemma. Qed.
+Print Assumptions orig_recoverable_run.
+
+Theorem failing_lambda_shape : forall stream f u,
+  exists ws, exec_lambda stream [] f (BFail u) = NErr [apply_ws ws u] /\ keys_of ws = [].
+Proof. exact lambda_fail_shape. Qed.
+
+Theorem failing_tool_shape : forall stream u ts,
+  exists ws, exec_tools stream [] (TFail u :: ts) = NErr [apply_ws ws u] /\ keys_of ws = [].
+Proof. exact tool_fail_shape. Qed.
+
+Example orig_recoverable_nonvacuous :
+  let u := Wrapf (Wrapf (Custom 0 3)) in
+  let e := apply_ws [WStream StreamByTransform; WNode "outer"; WNode "sub"; WStream TransformByInvoke] u in
+  (is_ u e, as_custom 0 e, np_of e, sp_of e) = (true, Some 3%N, ["outer"; "sub"], [StreamByTransform; TransformByInvoke]).
+Proof. vm_compute. reflexivity. Qed.
+
+(* Before the repair of F-C13 (the internalError type had no Unwrap method) the chain stopped at the wrapper. *)
+Theorem orig_recoverable_v0_refuted :
+  is_v0 (Leaf 0) (wrap_node_gen false "n" (Leaf 0)) = false /\
+  is_ (Leaf 0) (wrap_node "n" (Leaf 0)) = true.
+Proof. split; vm_compute; reflexivity. Qed.
+
+(* Before the repair of F-C13b the wrapper found by errors.As was returned instead of the error
+   itself: what a node had put around a nested run's error was dropped. *)
+Theorem wrapper_kept_v1_refuted :
+  let u := Wrapf (CustomW 2 6 (Internal NodeRunError [] ["x"] (Leaf 0))) in
+  is_ u (wrap_node_v1 "caller" u) = false /\ as_custom 2 (wrap_node_v1 "caller" u) = None /\
+  is_ u (wrap_node "caller" u) = true /\ as_custom 2 (wrap_node "caller" u) = Some 6%N /\
+  np_of (wrap_node "caller" u) = ["caller"; "x"].
+Proof. repeat split; vm_compute; reflexivity. Qed.
+
+(* ------------------------------------------------------------------ sentinels *)
+
+Theorem sentinels_matchable : forall ws,
+  is_ (Leaf id_exceed) (apply_ws ws (new_graph_run_error (Leaf id_exceed))) = true /\
+  is_ (Leaf id_canceled) (apply_ws ws (new_graph_run_error (Wrapf (Leaf id_canceled)))) = true.
+Proof. exact sentinels_lemma. Qed.
+Print Assumptions sentinels_matchable.
+
+(* for what a (nested) run returns: whenever the origin is the step-limit / cancellation error of
+   some graph on the path, the caller matches the sentinel in every paradigm *)
+Theorem sentinels_matchable_run : forall F stream g e p r par,
+  reported F stream g e p r ->
+  (r = new_graph_run_error (Leaf id_exceed) -> is_ (Leaf id_exceed) (top_error par e) = true) /\
+  (r = new_graph_run_error (Wrapf (Leaf id_canceled)) -> is_ (Leaf id_canceled) (top_error par e) = true).
+Proof. exact sentinels_run_lemma. Qed.
+Print Assumptions sentinels_matchable_run.
+
+(* and these are the errors the loop makes: a cyclic graph whose nodes all succeed runs into the
+   limit whatever the limit is; a run whose context is cancelled fails with the cancellation *)
+Theorem step_limit_reported : forall F stream d g,
+  g_loop g = true -> g_stages g <> [] -> forallb (forallb ok_node) (g_stages g) = true ->
+  run_graph F stream (S d) g [] false = GFail [new_graph_run_error (Leaf id_exceed)].
+Proof. exact cyclic_run_hits_limit. Qed.
+
+Theorem cancellation_reported : forall F stream d g items,
+  g_stages g <> [] ->
+  run_graph F stream (S d) g items true = GFail [new_graph_run_error (Wrapf (Leaf id_canceled))].
+Proof. exact cancelled_run. Qed.
+
+Example sentinels_nonvacuous :
+  let F := [ mkGraph false [[NSub "s" 1]] false 0;
+             mkGraph false [[NLam "x" FI BOk]; [NLam "y" FT BOk]] true 5 ] in
+  map (fun a => match a with AErr e => (np_of e, is_ (Leaf id_exceed) e, is_ (Leaf id_canceled) e) | _ => ([], false, false) end)
+      (answers F PCollect false None ++ answers F PInvoke true None)%list
+  = [ (["s"], true, false); ([], false, true) ].
+Proof. vm_compute. reflexivity. Qed.
+
+Theorem sentinels_matchable_v0_refuted :
+  is_v0 (Leaf id_exceed) (new_graph_run_error (Leaf id_exceed)) = false /\
+  is_v0 (Leaf id_canceled) (new_graph_run_error (Wrapf (Leaf id_canceled))) = false.
+Proof. split; vm_compute; reflexivity. Qed.
+
+(* ------------------------------------------------------------------ interrupts *)
+
+(* an interrupt (top-level, sub-graph, interrupt-and-rerun — anywhere on the chain) is handed on
+   as it is by both wrapping functions ... *)
+Theorem interrupts_pass_unwrapped : forall e, is_interrupt_error e = true ->
+  (forall k, wrap_node k e = e) /\ (forall a, wrap_stream a e = e).
+Proof. exact interrupt_not_wrapped_lemma. Qed.
+Print Assumptions interrupts_pass_unwrapped.
+
+(* ... and a step in which a task asks for an interrupt while no task fails ends the run
+   interrupted, not failed *)
+Theorem interrupt_is_not_failure : forall F stream rec all loop k st rest items,
+  let rs := map (fun n => (node_key n, exec_node F stream rec items false n)) st in
+  any_fuel rs = false -> all_fails rs = [] -> any_int rs = true -> all_items rs = [] ->
+  steps F stream rec all loop (S k) (st :: rest) items false = GInt.
+Proof. exact step_interrupts. Qed.
+
+Example interrupts_nonvacuous :
+  let F := [ mkGraph false [[NSub "s" 1; NLam "p" FI BOk]] false 0;
+             mkGraph false [[NLam "x" FC BRerun]] false 0 ] in
+  map (fun a => match a with AErr e => (as_internal e, extract_interrupt_gen true e) | _ => (None, false) end)
+      (answers F PStream false None)
+  = [ (None, true) ].
+Proof. vm_compute. reflexivity. Qed.
+
+(* ------------------------------------------------------------------ panics *)
+
+(* A panic in a node body is the task's error (executor's recover), in every flavour and mode;
+   whatever the input, the task never succeeds. *)
+Theorem panic_contained_node : forall stream f i,
+  exec_lambda stream [] f (BPanic i) = NErr [PanicErr i] /\
+  forall items, exists es, exec_lambda stream items f (BPanic i) = NErr es /\ es <> [].
+Proof. intros. split; [apply lambda_panic_is_error|intros; apply lambda_panic_never_ok]. Qed.
+
+(* A panic in any tool call makes the ToolsNode's task fail. *)
+Theorem panic_contained_tool : forall stream ts i, In (TPanic i) ts ->
+  exists es, exec_tools stream [] ts = NErr es /\ es <> [].
+Proof. exact tool_panic_is_error. Qed.
+
+(* Hence the run fails (the loop function is total: it ends after at most the step limit), with an
+   error carrying the panic and naming the node. *)
+Theorem panic_contained : forall F stream rec all loop k st rest key f i,
+  In (NLam key f (BPanic i)) st ->
+  any_fuel (map (fun n => (node_key n, exec_node F stream rec [] false n)) st) = false ->
+  exists es e, steps F stream rec all loop (S k) (st :: rest) [] false = GFail es /\ In e es /\
+               as_panic e = Some i /\ np_of e = [key].
+Proof. exact panicking_node_fails_run. Qed.
+Print Assumptions panic_contained.
+
+Theorem panic_contained_tools_run : forall F stream rec all loop k st rest key ts i,
+  In (NTools key ts) st -> In (TPanic i) ts ->
+  any_fuel (map (fun n => (node_key n, exec_node F stream rec [] false n)) st) = false ->
+  (forall es e, exec_tools stream [] ts = NErr es -> In e es -> is_interrupt_task e = false) ->
+  exists es, steps F stream rec all loop (S k) (st :: rest) [] false = GFail es /\ es <> [].
+Proof. exact panicking_tool_fails_run. Qed.
+
+Example panic_nonvacuous :
+  let F := [ mkGraph false [[NSub "t" 1; NLam "q" FS (BPanic 4)]] false 0;
+             mkGraph false [[NLam "pre" FI BOk]; [NTools "tn" [TOk; TPanic 9]]; [NLam "post" FI BOk]] false 0 ] in
+  map (fun a => match a with AErr e => (np_of e, as_panic e) | _ => ([], None) end)
+      (answers F PInvoke false None)
+  = [ (["t"; "tn"], Some 9%N); (["q"], Some 4%N) ].
+Proof. vm_compute. reflexivity. Qed.
